@@ -206,6 +206,16 @@ func (mbox *Mailbox) flagsLocked() []imap.Flag {
 func (mbox *Mailbox) Expunge(w *imapserver.ExpungeWriter, uids *imap.UIDSet) error {
 	expunged := make(map[*message]struct{})
 	mbox.mutex.Lock()
+	if uids != nil && len(mbox.l) > 0 {
+		// Resolve "*" to the UID of the last message in the mailbox
+		max := uint32(mbox.l[len(mbox.l)-1].uid)
+		var static imap.UIDSet
+		for _, r := range *uids {
+			staticNumRange((*uint32)(&r.Start), (*uint32)(&r.Stop), max)
+			static.AddRange(r.Start, r.Stop)
+		}
+		uids = &static
+	}
 	for _, msg := range mbox.l {
 		if uids != nil && !uids.Contains(msg.uid) {
 			continue
